@@ -691,7 +691,33 @@ def run(chk, facts, tier, only=None):
                    ok_detail="emitted identifier hashes back to the numeric id")
 
     # ------------------------------------------------------------------------------------------------- R4
+    def recs_decide_alone(crate_fns, label):
+        """where a definition is printed (pp_defs) or the actor returned (pp_actor), membership in the set of recursive definitions alone selects
+        the cycle-breaking form (newtype struct / IDL.Rec): exempting some members — aliases `type A = B`, say — leaves a cycle made of exempted
+        members unbroken (a cyclic `type` alias in Rust, a `const` read before its declaration in JavaScript)"""
+        n = 0
+        for g in crate_fns:
+            for i_ in nodes(g["body"], "if"):
+                cnd = i_["c"]
+                if not any(x.get("k") == "mcall" and x["m"] == "contains" and (expr_path(x["recv"]) or "").split(".")[-1] == "recs" for x in walk(cnd)):
+                    continue
+                n += 1
+                atoms = cond_atoms(cnd)
+                chk.expect(len(atoms) == 1, f"recs-membership-decides-alone:{label}:{g['key'].rsplit('::', 1)[-1]}",
+                           f"{g['key']}: the test `recs.contains(id)` that selects the cycle-breaking form is combined with another condition (line {i_.get('ln')}): "
+                           f"a recursive definition that fails the other condition is printed in the plain form, and a cycle consisting of such definitions "
+                           f"(`type A = B; type B = opt A` entered at A) is not broken", where=f"{g['span']['file']}:{i_.get('ln')}",
+                           ok_detail="recs.contains(id) is the whole condition")
+            for x in walk(g["body"]):
+                if x.get("k") == "mcall" and x["m"] == "filter" and any((expr_path(y["recv"]) or "").split(".")[-1] == "recs" for y in walk(x["recv"]) if y.get("k") == "mcall"):
+                    chk.bad(f"recs-membership-decides-alone:{label}:{g['key'].rsplit('::', 1)[-1]}:filter",
+                            f"{g['key']}: the set of recursive definitions is filtered before the forward declarations are printed (line {x.get('ln')})",
+                            where=f"{g['span']['file']}:{x.get('ln')}")
+        return n
+
     def r4():
+        n_rec = recs_decide_alone([cp.fn("^" + re.escape(RS) + r"State::<'_>::pp_defs$")] if cp.fns("^" + re.escape(RS) + r"State::<'_>::pp_defs$") else [fn("pp_defs")], "rust")
+        chk.floor("recs.contains tests in rust::pp_defs", n_rec, 1)
         h = fn("pp_var")
         p_id = (bind_names(h["params"][1]) or [None])[0]
         p_ref = (bind_names(h["params"][2]) or [None])[0] if len(h["params"]) > 2 else None
